@@ -173,6 +173,17 @@ def corpus():
         # changes are never heard: see the listen_around cases above)
         _arr(2, [_call(1, 'tA', [['listen_around', [['see']] * 6]]), _call(1, 'tC', [['req_set', 'HTTP_X_T', 'tCxt'], ['req_del']])],
              start=0, switches=[[550, 1]]),
+        # an application configured from another one's config namespace (constructor / setup, same thread / other thread)
+        # whose options are then changed in place: the first one keeps its options and its body limit
+        dict(_arr(2, [_call(0, 'tA', [['see'], ['new_app_from', 'ctor'], ['see'], ['form_see'], ['new_app_from', 'setup'],
+                                      ['see'], ['form_see']], method='POST', form='f=tAf&g=tAg')]), max_body=30),
+        dict(_arr(2, [_call(1, 'tA', [['see'], ['form_see'], ['see']], method='POST', form='f=tAf&g=tAg'),
+                      dict(construct=True, from_app=1, mode='setup')], default=True, start=1, switches=[]), max_body=30),
+        # filtered wildcards and the rule without wildcards in nested applications
+        _arr(2, [_call(0, 'tA', [['see'], ['call', _call(1, 'tB', [['see'], ['args_write'], ['see']], route='static', inject=True)],
+                                 ['see'], ['args_write'], ['see']], route='static')]),
+        _arr(2, [_call(0, 'tA', [['call', _call(1, 'tB', [['see']], route='rex')], ['see']], route='rex', inject=True)],
+             default=True),
         # redirect() works for the default application ...
         _arr(2, [_call(0, 'tA', [['see'], ['redirect', '?to=tA']])], default=True),
         # ... and (finding C10-redirect-default-app) reads the default application's request from any other one
@@ -323,7 +334,13 @@ def _gen_script(rng, tok, napps, depth, counter, busy=(), default=False):
                 na.append('setup')                # configured through Ombott.setup() after construction
             script.append(na)
             script.append(['see'])
-        elif r < 0.96:
+        elif r < 0.94:
+            # another application configured from THIS one's config namespace, then changed in place
+            script.append(['new_app_from', rng.choice(['ctor', 'setup'])])
+            script.append(['see'])
+            if rng.random() < 0.5:
+                script.append(['form_see'])
+        elif r < 0.97:
             # the mapping interfaces of response.headers / request, listeners, ext attributes
             script.extend(sched.gen_api_actions(rng, tok, True))
         else:
@@ -355,6 +372,8 @@ def _gen_arr(rng):
     for i in range(nthreads):
         if nthreads > 1 and rng.random() < 0.15:
             c = dict(construct=True, cfg=rng.choice(CFG_KINDS)) if rng.random() < 0.5 else dict(construct=True)
+            if rng.random() < 0.35:
+                c = dict(construct=True, from_app=rng.randrange(napps), mode=rng.choice(['ctor', 'setup']))
             if rng.random() < 0.6:
                 c.update(routes=True, tok='N%d' % i)      # ... and gives it routes and uses it
             calls.append(c)
@@ -382,6 +401,12 @@ def _gen_arr(rng):
         if rng.random() < 0.2:
             kw = _body_kw(rng, tok, j, default)
             script = _end_in_body_error(script)
+        elif rng.random() < 0.2:
+            # rules with filtered wildcards / without wildcards (no copy forwarded: the other application's rule differs)
+            kw.update(sched.gen_wild_kind(rng))
+            script = [a for a in script if a[0] != 'call_copy']
+            if rng.random() < 0.5:
+                script.insert(rng.randrange(len(script)), ['args_write'])
         elif rng.random() < 0.12 and not kw.get('readonly'):
             # requests the framework answers by itself (404 / 405 / 404-hook / undecodable path), HEAD, domain_map
             extra = sched.gen_call_kind(rng, cfg, default and j == 0)
@@ -586,7 +611,7 @@ def classify(case, obs):
             if a[0] == 'call':
                 kinds.add('nested')
                 walk(a[1], depth + 1)
-            elif a[0] in ('copy', 'new_app', 'abort', 'boom', 'gen', 'call_copy', 'redirect', 'body_read', 'ret', 'ext',
+            elif a[0] in ('copy', 'new_app', 'new_app_from', 'args_write', 'abort', 'boom', 'gen', 'call_copy', 'redirect', 'body_read', 'ret', 'ext',
                           'listen', 'req_set') or a[0].startswith('hdr_'):
                 kinds.add(a[0])
         if c.get('readonly'):
